@@ -105,7 +105,7 @@ ENTRY_FNS = {
     "subscriptions": ["_subscriptions", "_subcache"],
     "changed": [],
 }
-FLAVOUR_FNS = {"LB": ["LB_changed", "LB_clear"],
+FLAVOUR_FNS = {"LB": ["LB_changed", "LB_clear"], "AR": ["LB_changed", "LB_clear"],
                "VB": ["_verify", "_generations_tuple", "verify_changed", "VB_clear", "LB_clear"]}
 POINTS = {
     "lookup": ["lazy_required", "provided_hash", "name_bool", "name_hash", "required_hash", "uncached", "destructor"],
@@ -151,6 +151,16 @@ def generate(run, tier):
                     continue
                 cases.append({"flavour": flavour, "entry": entry, "point": "none", "action": "none", "named": False,
                               "variant": variant, "repeat": big})
+    # failing calls after a successful one: whatever they leak keeps the detached cache alive
+    for flavour in ("LB", "VB", "AR"):
+        for entry in ("lookup", "lookup1", "adapter_hook", "queryAdapter", "lookupAll", "subscriptions"):
+            for fail in (("uncached", "lazy") if flavour != "AR" else ("notspec", "lazy")):
+                if fail == "lazy" and entry in ("lookup1", "adapter_hook", "queryAdapter"):
+                    continue
+                if fail == "notspec" and entry in ("adapter_hook", "queryAdapter", "lookup1"):
+                    continue
+                cases.append({"flavour": flavour, "entry": entry, "point": "none", "action": "none", "named": False,
+                              "variant": "fail_after_success", "fail": fail, "repeat": 1000})
     return cases
 
 
@@ -183,7 +193,7 @@ def coq_case(case, obs, mode):
 def classify(case, obs):
     if "skip" in obs or "error" in obs or not obs.get("fired") or case["point"] == "none":
         return None
-    return (case["flavour"], case["entry"], case["point"], case["action"], case["named"], case["variant"])
+    return (case["flavour"], case["entry"], case["point"], case["action"], case["named"], case["variant"], case.get("fail"))
 
 
 def kind(case, obs):
@@ -396,7 +406,7 @@ HAZARDS = ["provided_hash_lookup", "provided_hash_lookupAll", "provided_hash_sub
 
 # deterministic interleavings (a simulated thread switch), run on both implementations
 BOTH_MODE_HAZARDS = ["stale_ro_after_reader_refresh", "concurrent_changed_unsubscribe",
-                     "mutation_from_key_hash_during_walk"]
+                     "mutation_from_key_hash_during_walk", "lookup_during_mutator"]
 
 
 def _asan_env():
